@@ -738,7 +738,16 @@ def gen_level(rng, T, app, opts):
     # declared dependencies between the leaves of this table (rDepends lists,
     # several keys naming the same port, chains and diamonds): leaf k may name
     # leaves in front of it (acyclic by construction)
-    if rng.random() < opts.get("p_rdep", 0.0):
+    if len(leaves) >= 5 and rng.random() < opts.get("p_chain", 0.0):
+        # one long chain: leaf k names exactly the leaf in front of it (no short cuts), so that the
+        # first and the last are joined only through all the others (C13: files where the ports in
+        # between have no line - the recursion of scan_deps through >= 3 absent ports)
+        order = list(leaves)
+        rng.shuffle(order)
+        order.sort(key=lambda q: 0 if q.fid == lv.selector else 1)
+        for k in range(1, len(order)):
+            order[k].rdepends = [order[k - 1].name]
+    elif rng.random() < opts.get("p_rdep", 0.0):
         order = list(leaves)
         rng.shuffle(order)
         order.sort(key=lambda q: 0 if q.fid == lv.selector else 1)      # "default depends" edges point at the selector
